@@ -403,6 +403,8 @@ def run(ctx):
         ctx.evaluations += 1
     ctx.sample({'formats_en': R.offered('en'), 'formats_ja': R.offered('ja')})
     ctx.extra['skipped_unsupported'] = common.compare_with_model(ctx, cases)
+    import cli_common
+    cli_common.cli_suite(ctx, ctx.budget(24, 240), formats=['auto_extended', 'conll', 'ptb', 'deriv', 'ja', 'json', 'xml', 'prolog', 'html', 'jigg_xml'])      # the same through the command line itself
     common.conclude(ctx)
 
 
